@@ -426,6 +426,16 @@ def sec_real_types(rep):
                 v, detail = _real_run(dict(lo, TMC=tmc, MP=mp), dict(prDIS="NC", observables={f"{kind}_total": [{"x": 0.3, "Q2": 10.0}, {"x": np.float64(0.1), "Q2": 4}]}))
                 ok = not v.startswith("internal")
                 rep.add(ob_eval(f"C16/real-types/{kind}_total/TMC={tmc}/MP:{type(mp).__name__}/finite-or-explicit", ok, detail=f"{v}: {detail}", inputs={} if ok else {"kind": kind, "TMC": tmc, "MP": repr(mp), "observed": detail}, replay={"confirmed": True, "python": f"Runner(base_theory(PTO=0, PTODIS=0, TMC={tmc}, MP={mp!r}), {{'{kind}_total': [...]}}).get_result()"}))
+    # every scheme x NfFF through the REAL card translation, the real eko Atlas / nf_default and the real
+    # Combiner at LO (threshold ratios different from 1 in the card): a finite operator or an explicit
+    # rejection -- no error out of a dependency's precondition (unsorted matching scales, ...)
+    for fns in H.SCHEMES:
+        for nf_ff in (3, 4, 5, 6):
+            for name in ("F2_total", "F2_light"):
+                rep.cases += 1
+                v, detail = _real_run(dict(lo, FNS=fns, NfFF=nf_ff, kcThr=1.2, kbThr=0.9, ktThr=1.1), dict(prDIS="EM", observables={name: [{"x": 0.3, "Q2": 3.0}, {"x": 0.1, "Q2": 50.0}, {"x": 0.3, "Q2": 1.0e5}]}))
+                ok = not v.startswith("internal")
+                rep.add(ob_eval(f"C16/real-types/{fns} NfFF={nf_ff}/{name} at three virtualities (LO, threshold ratios 1.2, 0.9, 1.1)/finite-or-explicit", ok, detail=f"{v}: {detail}", inputs={} if ok else {"FNS": fns, "NfFF": nf_ff, "observable": name, "observed": detail}, replay={"confirmed": True, "python": f"Runner(base_theory(PTO=0, FNS='{fns}', NfFF={nf_ff}, kcThr=1.2, kbThr=0.9, ktThr=1.1), ...).get_result()"}))
     # the two scale-variation switches are card entries like any other: every combination, at every
     # order that has logarithms, returns a finite operator (real NNLO run of a light observable)
     for ren in (True, False):
@@ -494,7 +504,7 @@ def run(rep, tier, seed, only=None):
         "in-repo formulas finite on their domain: C03 definedness obligations (run under C03)",
         "explicit rejection := ValueError / NotImplementedError / RuntimeError with a non-empty message",
     )
-    for nm, f in (("dispatch", lambda r: sec_dispatch(r, tier)), ("tmc", sec_tmc_dispatch), ("kinematics", sec_kinematics), ("nans", sec_nans), ("svhistory", sec_sv_history), ("runnertotality", sec_runner_totality), ("realtypes", sec_real_types), ("finitetables", lambda r: sec_finite_tables(r, tier))):
+    for nm, f in (("dispatch", lambda r: sec_dispatch(r, tier)), ("tmc", sec_tmc_dispatch), ("kinematics", sec_kinematics), ("nans", sec_nans), ("svhistory", sec_sv_history), ("runnertotality", sec_runner_totality), ("realtypes", sec_real_types), ("names", H.observable_names_contract), ("finitetables", lambda r: sec_finite_tables(r, tier))):
         if only and only not in nm:
             continue
         rep.add(guarded(f"C16/{nm}", lambda f=f: (f(rep), [])[1]))
